@@ -811,6 +811,101 @@ class Crate:
         self.statics = j["statics"]
         self.unsafe = j["unsafe"]
         self._cache = {}
+        self.wrappers = {}
+        if use_anchors and self.name == "slotted_egraphs":
+            self._splice_wrappers()
+
+    def _splice_wrappers(self):
+        """A field of one of the library's types that was given a private type of its own — `pending: HashMap<L, PendingType>`
+        becomes `pending: PendingQueue<L>`, a struct that did not exist in the reviewed tree, with one field and a handful of small
+        methods (insert / schedule / pop ..): the rules address the field as the container it was.  The wrapper's methods are
+        spliced in at every call site and the projection onto the wrapper's single field is dropped, so that
+        `self.pending.pop()` reads as the `keys().next()` / `remove()` on `self.pending` it stands for."""
+        table = _anchor_adts()
+        if not table:
+            return
+        known_last = {p_.split("::")[-1] for p_ in table}
+        reviewed_field_tys = []
+        for a in self.adts.values():
+            if a["path"] in table or a["path"].split("::")[-1] in known_last:
+                for v in a["variants"]:
+                    for f in v["fields"]:
+                        reviewed_field_tys.append(f["ty"])
+        wr = {}
+        for a in self.adts.values():
+            pth = a["path"]
+            if pth in table or pth.split("::")[-1] in known_last or pth.startswith(("std::", "core::", "alloc::")):
+                continue
+            if len(a["variants"]) != 1 or len(a["variants"][0]["fields"]) != 1 or a.get("kind", "struct") not in ("struct", "Struct"):
+                continue
+            if not any(t == pth or t.startswith(pth + "<") for t in reviewed_field_tys):
+                continue
+            wr[pth] = a["variants"][0]["fields"][0]["name"]
+        if not wr:
+            return
+        self.wrappers = wr
+        methods = set()
+        for b in self.bodies.values():
+            if b.kind == "Closure" or not b.impl_self:
+                continue
+            w = [pth for pth in wr if b.impl_self == pth or b.impl_self.startswith(pth + "<")]
+            if not w or sum(1 for bl in b.blocks if not bl["cleanup"]) > 60:
+                continue
+            if any(c.callee and c.callee.target == b.id for c in b.calls):
+                continue
+            methods.add(b.id)
+
+        def strip(x):
+            if isinstance(x, dict):
+                if "l" in x and "p" in x and isinstance(x["p"], list):
+                    x["p"] = [q for q in x["p"] if not (isinstance(q, dict) and q.get("adt") in wr and q.get("f") == wr[q.get("adt")])]
+                for v in x.values():
+                    strip(v)
+            elif isinstance(x, list):
+                for v in x:
+                    strip(v)
+        repl = {}
+        for bid, b in list(self.bodies.items()):
+            if bid in methods:
+                continue
+            if not any(c.callee and c.callee.target in methods and not b.blocks[c.bb]["cleanup"] for c in b.calls):
+                continue
+            v = inline_view(self, b, depth=2, policy=methods)
+            if v is b:
+                continue
+            j2 = json.loads(json.dumps(v.j))
+            strip(j2)
+            _thread_known_variants(j2)
+            nb = Body(self, j2)
+            nb.closures = list(b.closures)
+            nb.parent_body = b.parent_body
+            nb.creation = b.creation
+            for attr in ("real_name",):
+                if hasattr(b, attr):
+                    setattr(nb, attr, getattr(b, attr))
+            nb.name = b.name
+            nb.spliced_wrappers = sorted(set(getattr(v, "inlined", [])))
+            repl[bid] = (b, nb)
+        for bid, (b, nb) in repl.items():
+            self.bodies[bid] = nb
+            for nm, lst in self.by_name.items():
+                for i, x in enumerate(lst):
+                    if x is b:
+                        lst[i] = nb
+        for b in self.bodies.values():
+            if b.parent_body is not None and b.parent_body.id in repl and b.parent_body is repl[b.parent_body.id][0]:
+                b.parent_body = repl[b.parent_body.id][1]
+            if b.creation is not None and b.creation[0].id in repl and b.creation[0] is repl[b.creation[0].id][0]:
+                pb, bi, si, ops = b.creation
+                b.creation = (repl[pb.id][1], bi, si, ops)
+        for nb in (x[1] for x in repl.values()):
+            nb.closures = [repl[c.id][1] if c.id in repl and c is repl[c.id][0] else c for c in nb.closures]
+        if self.aliases:
+            for b in (x[1] for x in repl.values()):
+                for c in b.calls:
+                    if c.callee is not None and c.callee.target in self.aliases:
+                        c.callee.name = self.aliases[c.callee.target]
+        self._cache = {}
 
     def _inject_aliases(self):
         """a function recorded in anchors.json that no longer exists under its name in its file, while exactly one
@@ -1473,6 +1568,93 @@ def _shift(o, dl, db, nblocks_self):
     if isinstance(o, list):
         return [_shift(x, dl, db, nblocks_self) for x in o]
     return o
+
+
+def _thread_known_variants(j, max_chain=6):
+    """jump threading on a body's JSON: a block that builds `X = Enum::Variant{..}` and then reaches — through a short chain of
+    plain blocks that only move X along (the spliced-in helper's return block: `dest = move X`) — a switch on the discriminant of
+    that value is sent straight to the arm of that variant (the blocks of the chain are duplicated for it).  Without this a
+    spliced helper that returns `Some(..)` on one path and `None` on another looks, after the join in its return block, as if
+    the caller's `while let Some(..)` could leave the loop with the `Some` in hand."""
+    blocks = j["blocks"]
+    n0 = len(blocks)
+    for bi in range(n0):
+        B = blocks[bi]
+        if B["cleanup"]:
+            continue
+        known = None
+        tB = B["term"]
+        if tB["k"] == "call":
+            # `None?` : <Option<T> as FromResidual<Option<Infallible>>>::from_residual always answers None
+            fn_ = tB["func"]
+            ga = fn_.get("gargs") or []
+            if fn_.get("k") == "const" and str(fn_.get("fn", "")).endswith("FromResidual::from_residual") and len(ga) >= 2 and all(str(g).startswith("std::option::Option<") for g in ga[:2]) \
+                    and not tB["dest"]["p"] and tB.get("target") is not None:
+                known = (tB["dest"]["l"], 0, len(B["stmts"]))
+        elif tB["k"] in ("goto", "drop"):
+            for si, st in enumerate(B["stmts"]):
+                if st["k"] == "assign" and not st["lhs"]["p"] and st["rv"]["k"] == "agg" and st["rv"].get("agg") == "adt" and "vi" in st["rv"]:
+                    known = (st["lhs"]["l"], st["rv"]["vi"], si)
+        if known is None:
+            continue
+        carry = {known[0]}
+        vi = known[1]
+        ok = True
+        for st in B["stmts"][known[2] + 1:]:
+            if st["k"] == "assign" and st["lhs"]["l"] in carry:
+                ok = False
+        if not ok:
+            continue
+        chain = []
+        cur = B["term"].get("target")
+        target = None
+        for _ in range(max_chain):
+            if cur is None or cur >= n0 or cur == bi or cur in chain:
+                break
+            N = blocks[cur]
+            if N["cleanup"]:
+                break
+            dl = None
+            bad = False
+            for st in N["stmts"]:
+                if st["k"] != "assign":
+                    continue
+                rv = st["rv"]
+                if rv["k"] == "use" and rv["op"]["k"] in ("move", "copy") and not rv["op"]["pl"]["p"] and rv["op"]["pl"]["l"] in carry and not st["lhs"]["p"]:
+                    carry.add(st["lhs"]["l"])
+                elif rv["k"] == "discr" and not rv["pl"]["p"] and rv["pl"]["l"] in carry and not st["lhs"]["p"]:
+                    dl = st["lhs"]["l"]
+                elif st["lhs"]["l"] in carry:
+                    bad = True
+            if bad:
+                break
+            t = N["term"]
+            chain.append(cur)
+            if t["k"] == "switch":
+                pl = t["discr"].get("pl") if t["discr"]["k"] in ("move", "copy") else None
+                if pl is not None and not pl["p"] and pl["l"] == dl:
+                    hit = [c[1] for c in t["cases"] if c[0] == str(vi)]
+                    target = hit[0] if hit else t["otherwise"]
+                break
+            if t["k"] not in ("goto", "drop"):
+                break
+            cur = t.get("target")
+        if target is None or not chain:
+            continue
+        # duplicate the chain for this predecessor; the copy of the switch block jumps to the one feasible arm
+        new_ids = []
+        for k, ci in enumerate(chain):
+            cp = json.loads(json.dumps(blocks[ci]))
+            cp["threaded_from"] = ci
+            blocks.append(cp)
+            new_ids.append(len(blocks) - 1)
+        for k, ni in enumerate(new_ids):
+            t = blocks[ni]["term"]
+            if k + 1 < len(new_ids):
+                t["target"] = new_ids[k + 1]
+            else:
+                blocks[ni]["term"] = {"k": "goto", "target": target, "line": t.get("line"), "threaded": True}
+        B["term"]["target"] = new_ids[0]
 
 
 def default_inline_policy(crate):
